@@ -70,18 +70,41 @@ theorem guard_tracks_stack (c : Circ) (fuel : Nat) (s : St) (d : Nat) (et : ETyp
 /-! ### recursion_is_refused_and_aborts -/
 
 /-- an event addressed to a block that is handling an event is refused with EdzedCircuitError;
-    the handler is not entered and nothing else changes (the type checks come first) -/
+    the handler is not entered; the only change of the state is `Circuit.abort(exc)` – the simulation
+    is stopped AT the refusal (repaired `SBlock.event`: `exc = …; self.circuit.abort(exc); raise exc`);
+    the type checks come first -/
 theorem recursive_event_is_refused (c : Circ) (fuel : Nat) (s : St) (d : Nat) (b : Blk) (et : EType)
     (data : Data) (hb : c.blocks[d]? = some b) (ht : et.check = Option.none) (ha : s.active d = true) :
     deliver c (fuel + 1) s d et data =
-      ({ s with trace := .refused d :: s.trace }, .exc .circuitError) := by
+      ({ s.abort .circuitError with trace := .refused d :: s.trace }, .exc .circuitError) := by
   unfold deliver
   simp [hb, ht, ha]
 
-/-- … and it stops the simulation: when a top-level delivery ends with EdzedCircuitError (in this
-    model only a refused recursive event raises it, at any depth of the chain of blocks, filters and
-    output events), `Circuit.error` is set afterwards -/
-theorem recursion_is_refused_and_aborts (c : Circ) (s : St) (d : Nat) (et : EType) (data : Data)
+/-- a refused recursive event sets `Circuit.error` at the refusal itself … -/
+theorem recursion_is_refused_and_aborts (c : Circ) (fuel : Nat) (s : St) (d : Nat) (b : Blk)
+    (et : EType) (data : Data) (hb : c.blocks[d]? = some b) (ht : et.check = Option.none)
+    (ha : s.active d = true) :
+    (deliver c (fuel + 1) s d et data).2 = .exc .circuitError ∧
+    (deliver c (fuel + 1) s d et data).1.error.isSome := by
+  rw [recursive_event_is_refused c fuel s d b et data hb ht ha]
+  exact ⟨rfl, abort_error s _⟩
+
+/-- … and it stays set whatever any handler on the stack does afterwards (propagate the exception,
+    turn it into other events, or swallow it with `try/except` – `Act.trySend`): if anywhere in the
+    call tree of a delivery an event was refused, `Circuit.error` is set when the delivery returns,
+    with or without an exception for the sender -/
+theorem refusal_stops_simulation (c : Circ) (fuel : Nat) (s : St) (d : Nat) (et : EType) (data : Data)
+    (h0 : s.trace = []) (x : Nat) (hx : TItem.refused x ∈ (deliver c fuel s d et data).1.trace) :
+    (deliver c fuel s d et data).1.error.isSome :=
+  deliver_refAbort c fuel s d et data (by intro ⟨y, hy⟩; simp [h0] at hy) ⟨x, hx⟩
+
+/-- the error is never withdrawn by later deliveries -/
+theorem error_is_kept (c : Circ) (fuel : Nat) (s : St) (d : Nat) (et : EType) (data : Data)
+    (h : s.error.isSome) : (deliver c fuel s d et data).1.error.isSome :=
+  (deliver_frm c fuel s d et data).error h
+
+/-- a top-level delivery that ends with EdzedCircuitError has stopped the simulation -/
+theorem circuit_error_means_aborted (c : Circ) (s : St) (d : Nat) (et : EType) (data : Data)
     (h : Idle s) (hr : (rawSend c s d et data).2 = .exc .circuitError) :
     (rawSend c s d et data).1.error.isSome := by
   have := deliver_Q c c.fuel s d et data h.inv hr
@@ -242,6 +265,17 @@ example : (rawSend exLoop exReady 0 (.name "a") []).2 = .exc .circuitError
     ∧ (rawSend exLoop exReady 0 (.name "a") []).1.error = some .circuitError
     ∧ (rawSend exLoop exReady 0 (.name "a") []).1.active 0 = false
     ∧ (rawSend exLoop exReady 0 (.name "a") []).1.trace.length = 3 := by decide +kernel
+
+/-- A -> B(try/except) -> A: B swallows the refusal, the sender gets a normal return value, and the
+    simulation is stopped all the same -/
+def exSwallow : Circ :=
+  ⟨[{ scriptA := [.send 0 Option.none], extra := [⟨1, .name "a", []⟩] },
+    { scriptA := [.trySend 0 Option.none], extra := [⟨0, .name "a", []⟩] }]⟩
+
+example : (rawSend exSwallow exReady 0 (.name "a") []).2 = .ret .none
+    ∧ (rawSend exSwallow exReady 0 (.name "a") []).1.error = some .circuitError
+    ∧ (rawSend exSwallow exReady 0 (.name "a") []).1.active 0 = false
+    ∧ (rawSend exSwallow exReady 0 (.name "a") []).1.active 1 = false := by decide +kernel
 
 /-- `Idle`, `Inv`, `TraceOk` are satisfiable: the start state -/
 example : Idle exReady ∧ Inv exReady ∧ TraceOk exReady :=
